@@ -163,7 +163,7 @@ package utreexo
 
 //@ func DetectOffset(position uint64, numLeaves uint64) (tree uint8, branchLen uint8, bits uint64, err error)
 //@   requires numLeaves <= pow2(63)
-//@   ensures tree <= 64 && (err != nil ==> tree == 0 && branchLen == 0 && bits == 0)
+//@   ensures err != nil ==> tree == 0 && branchLen == 0 && bits == 0
 //@   rac ensures existsS(position, numLeaves) ==> err == nil && tree == biggerTrees(numLeaves, treeOf(position)) && branchLen == treeOf(position) - rowOf(position) && lowbits((^bits)^1, branchLen) == offsetInTree(position)   // bounded (RAC): symbolic query exceeds 20 s per closed row
 //@   loop 1: unroll 66
 
@@ -348,12 +348,14 @@ package utreexo
 //@ lemma popcount_succ(n uint64, h uint8)
 //@   requires h <= 63 && lowOnes(n, h) && !hasRoot(n, h)
 //@   ensures popcount(n + 1) + h == popcount(n) + 1
+//@   ensures int(popcount(n + 1)) + int(h) == int(popcount(n)) + 1
 //@   ensures popcount(n) >= h
 //@   split h 0 63
 
 //@ lemma popcount_lowones(n uint64, h uint8)
 //@   requires h <= 63 && lowOnes(n, h) && hasRoot(n, h)
 //@   ensures popcount(n) >= h + 1
+//@   ensures int(popcount(n)) >= int(h) + 1
 //@   split h 0 63
 
 //@ func ProofPositions(origTargets []uint64, numLeaves uint64, totalRows uint8) (proofPositions []uint64, nextTargets []uint64)
